@@ -1003,6 +1003,7 @@ func (r *runner) finish(baseline map[int]bool) {
 	// goroutine census: everything the peer package started since the case
 	// began must be gone
 	start := time.Now()
+	nap := 50 * time.Microsecond
 	for {
 		var extra []gor
 		for _, g := range peerGoroutines() {
@@ -1060,7 +1061,10 @@ func (r *runner) finish(baseline map[int]bool) {
 				pfx, len(extra), 2*bound, dumpOf(extra))
 			break
 		}
-		time.Sleep(200 * time.Microsecond)
+		time.Sleep(nap) // a full stack dump stops the world: back off
+		if nap < 20*time.Millisecond {
+			nap *= 2
+		}
 	}
 	r.h("   census done")
 
